@@ -491,12 +491,36 @@ func runC03(c *eng.Ctx) {
 			w := q.Find()
 			c.Check(w == nil, "parked reader positions itself before reading", c.Pos(rl[0].(ssa.Instruction)), "every path from r.seg == nil to readLoop passes getHWPos", "a parked reader can enter the read loop without computing the watermark position: "+w.String())
 			changed := eng.CmpEdges(fn, isHWValue, eng.Load(hwF, nil), eng.NE)
+			// equally good: the reader waits until the watermark has REACHED the offset it will resume at (which is at least
+			// its old watermark + 1): hw >= offset implies that it changed
+			resumeAt := func(v ssa.Value) bool {
+				next := eng.Bin(token.ADD, eng.Load(hwF, nil), eng.IntConst(1))
+				if next(v) {
+					return true
+				}
+				ph, isPhi := v.(*ssa.Phi)
+				if !isPhi {
+					return false
+				}
+				has := false
+				for _, e := range ph.Edges {
+					switch {
+					case next(e):
+						has = true
+					case eng.LoadNamed("start", nil)(e): // the offset the reader was created for, taken when it lies further on
+					default:
+						return false
+					}
+				}
+				return has && len(eng.CmpEdges(fn, eng.LoadNamed("start", nil), next, eng.GT)) > 0
+			}
+			changed = append(changed, eng.CmpEdges(fn, isHWValue, resumeAt, eng.GE)...)
 			q2 := &eng.PathQuery{Fn: fn, FromEdges: parked, Target: eng.IsCallTo("server/commitlog.getHWPos"), CutEdges: changed}
 			w2 := q2.Find()
 			c.Check(w2 == nil && len(changed) > 0, "parked reader waits for a watermark change", p.Pos(fn.Pos()), "getHWPos is reached only over the hw != r.hw edge", "a parked reader can proceed although the high watermark did not change: "+w2.String())
 			// first offset read is r.hw + 1
 			fe := eng.CallsIn(fn, "server/commitlog.segment.findEntry")
-			okOff := len(fe) == 1 && eng.Bin(token.ADD, eng.Load(hwF, nil), eng.IntConst(1))(fe[0].Common().Args[1])
+			okOff := len(fe) == 1 && resumeAt(fe[0].Common().Args[1])
 			c.Check(okOff, "parked reader resumes at hw+1", p.Pos(fn.Pos()), "findEntry(r.hw + 1) with the watermark value from before the wait", "the parked reader does not resume at the offset following its last synchronised watermark")
 		}
 	}
